@@ -408,7 +408,8 @@ class MultiIndexLocation(IndexLocation):
 
     def detachedCopy(self) -> "MultiIndexLocation":
         loc = MultiIndexLocation(None)
-        loc.extend(self._locations)
+        # the cells are detached as well: they stay registered in the grid they came from
+        loc.extend(cell.detachedCopy() for cell in self._locations)
         return loc
 
     def associate(self, grid: "Grid"):
